@@ -520,6 +520,22 @@ fn stack(out: &mut Vec<GSpec>) {
             }
         }
     }
+    // self-contained (recognition on an empty initial stack shows it): an entry pushed before the attempt is
+    // replaced inside the attempt (same depth, other content), the attempt is abandoned, a reader follows
+    for (oi, op) in ["DROP ~ PUSH(\"b\")", "POP ~ PUSH(\"b\")", "POP_ALL ~ PUSH(\"b\")"].iter().enumerate() {
+        for body in bodies(&[*op]) {
+            for k in 0..8 {
+                for (ri, r) in [" ~ PEEK", " ~ PEEK_ALL ~ \"a\"?", " ~ POP ~ PEEK?"].iter().enumerate() {
+                    let e = format!("PUSH(\"a\") ~ {}{}", wrap(k, &body), r);
+                    if oi == 0 && ri == 0 {
+                        quick_exprs.push(e);
+                    } else {
+                        thorough_exprs.push(e);
+                    }
+                }
+            }
+        }
+    }
     // nesting depth 2: K inside K
     for (oi, op) in ["PUSH(\"a\")", "POP", "DROP"].iter().enumerate() {
         let body = format!("{} ~ \"b\"", op);
